@@ -111,6 +111,9 @@ def oracles(rec):
                 if ctx_drops > 1:
                     fail('C16', 'context dropped more than once')
                 alive = False
+        if any(dr.startswith('ctx:') for dr in o['drops']) and not (
+                op in ('drop', 'newdyn', 'newtyped', 'default') or o['res'].startswith('panic') or o['res'] == 'abandoned'):
+            fail('C16', f'the context was dropped by `{op}` (result {o["res"]}) although the machine was not dropped')
         if cur[0] == 'typed' and ctx_id is not None and cur[2] != ctx_id:
             fail('C16', f'machine carries context {cur[2]} but was created with {ctx_id}')
         for c in o['calls']:
@@ -246,6 +249,10 @@ def oracles(rec):
                     fail('C05', 'a callback or AfterSuccess stage ran although the call returned an error')
             if res.startswith('panic') and dyn and cur[1] != 'poisoned' and cur[1] != src:
                 fail('C19', f'after a panicking dispatch the machine reports {cur[1]} (was {src})')
+        # ---- C19: a dispatch that returns (Ok or Err) leaves the machine in a declared state and usable
+        if op == 'handle' and prev[0] == 'dyn' and prev[1] in states and (o['res'] == 'ok' or o['res'].startswith('errdyn:')):
+            if cur[0] != 'dyn' or cur[1] not in states:
+                fail('C19', f'handle returned {o["res"]} but the machine is now {cur[1]}')
         # ---- C19: once poisoned, nothing is reported but unavailability
         if prev[0] == 'dyn' and prev[1] == 'poisoned':
             if op == 'state' and not o['res'].startswith('panic:invalid'):
@@ -330,6 +337,9 @@ def gen_defs(tier, seed):
                 combo = (ci * cfg['per_crate'] + k) // 7
                 d = T.assign_def(rng, bool(combo & 1), bool(combo & 2), bool(combo & 4), dynamic=not feature)
                 fam = 'assign'
+            elif r == 4:
+                d = T.hier_def(rng, rng.random() < 0.3, rng.random() < 0.3, dynamic=not feature)
+                fam = 'hier'
             elif r == 6:
                 d = T.t3_def(rng, T.T3Shape(p_data=0.9), force={'dynamic': not feature})
                 fam = 'data'
@@ -353,23 +363,38 @@ def run(tier, seed, work, repo):
     for x in allds:
         x['info'] = infos.get(x['id'], {'err': 'no info'})
         x['text'] = D.to_text(x['def'])
+    def build_unit(name, ds, feature):
+        mods = [(x['mod'], T.module_code(x['mod'], x['def'], x['text'], x['info'])) for x in ds]
+        cdir = os.path.join(root, f'crate{name}')
+        T.write_crate(cdir, mods, repo, feature)
+        ok, err = T.build_crate(cdir, os.path.join(root, f'target{name}'))
+        return ok, err
     def build(ci):
         ds = [x for x in crates[ci] if 'err' not in x['info']]
-        mods = [(x['mod'], T.module_code(x['mod'], x['def'], x['text'], x['info'])) for x in ds]
-        cdir = os.path.join(root, f'crate{ci}')
-        T.write_crate(cdir, mods, repo, crates[ci][0]['feature'])
-        ok, err = T.build_crate(cdir, os.path.join(root, f'target{ci}'))
-        return ci, ok, err
+        feature = crates[ci][0]['feature']
+        ok, err = build_unit(str(ci), ds, feature)
+        if ok:
+            return [(str(ci), ds, None)]
+        # a crate that does not build: isolate the machines that do not compile (each is a
+        # well-formed definition the macro should have handled) and keep going with the others
+        units = []
+        for x in ds:
+            ok1, err1 = build_unit(f'{ci}_{x["mod"]}', [x], feature)
+            units.append((f'{ci}_{x["mod"]}', [x], None if ok1 else err1))
+        return units
     with ThreadPoolExecutor(min(8, cfg['crates'])) as ex:
-        builds = list(ex.map(build, range(len(crates))))
+        built = [u for us in ex.map(build, range(len(crates))) for u in us]
+    result['compile_failures'] = []
     rng = random.Random(seed * 31 + 5)
-    for ci, ok, err in builds:
-        if not ok:
-            result['build_errors'].append({'crate': ci, 'stderr': err[-3000:],
-                                           'definitions': [x['text'] for x in crates[ci]][:3]})
+    for uname, uds, berr in built:
+        if berr is not None:
+            for x in uds:
+                result['compile_failures'].append({'dsl': x['text'], 'feature': x['feature'], 'prefix': D.to_prefix(x['def']),
+                                                   'stderr': berr[-2500:]})
+            result['build_errors'].append({'crate': uname, 'stderr': berr[-3000:], 'definitions': [x['text'] for x in uds][:3]})
             continue
         scns = []
-        for x in crates[ci]:
+        for x in uds:
             info = x['info']
             if 'err' in info:
                 continue
@@ -392,11 +417,11 @@ def run(tier, seed, work, repo):
                 fams.append(('abandon', ops))
             for k, (fam, ops) in enumerate(fams):
                 scns.append({'sid': f"{x['id']}.{fam}{k}", 'family': fam, 'x': x, 'ops': ops})
-        binary = os.path.join(root, f'target{ci}', 'debug', 't3crate')
+        binary = os.path.join(root, f'target{uname}', 'debug', 't3crate')
         impl, rc, err = T.run_impl_scenarios(binary, [(s['sid'], s['x']['mod'], s['ops']) for s in scns])
         model = T.run_model_scenarios([(s['sid'], s['x']['feature'], s['x']['def'], s['ops']) for s in scns])
         if rc != 0:
-            result['build_errors'].append({'crate': ci, 'stderr': 'harness binary failed: ' + err})
+            result['build_errors'].append({'crate': uname, 'stderr': 'harness binary failed: ' + err})
         for s in scns:
             il = impl.get(s['sid'], [])
             ml = model.get(s['sid'], [])
@@ -419,7 +444,7 @@ def run(tier, seed, work, repo):
             if len(result['samples']) < 4 and s['family'] in ('assign', 'abandon', 'walk') and len(il) > 3:
                 if not any(x['family'] == s['family'] for x in result['samples']):
                     result['samples'].append({'family': s['family'], 'dsl': rec['dsl'][:500], 'ops': s['ops'][:4], 'observed': il[:4]})
-        shutil.rmtree(os.path.join(root, f'target{ci}'), ignore_errors=True)
+        shutil.rmtree(os.path.join(root, f'target{uname}'), ignore_errors=True)
     shutil.rmtree(root, ignore_errors=True)
     result['n_model_diffs'] = len(result['model_diffs'])
     result['n_oracle_failures'] = len(result['oracle_failures'])
